@@ -9,7 +9,7 @@ symbols with the real objects and requires
   * fit plan: the inputs the plan names (`COL j` / `Uof(parent, side)`) are bit for bit the matrix
     `select_copula` received for that edge; `select_copula(plan inputs)` gives `edge.name/theta`;
     `fix01(H(l,r)), fix01(H(r,l))` (H = real `partial_derivative`, `fix01` evaluated in Lean at Float)
-    is `edge.U` bit for bit; all U strictly inside (0,1); the rows `Edge.get_conditional_uni` really
+    is `edge.U` bit for bit (`fix01` = the clamp `<= 0 -> EPS`, `>= 1 -> 1 - EPS`); all U strictly inside (0,1); the rows `Edge.get_conditional_uni` really
     returns are the plan's;
   * likelihood plan: `get_likelihood(u)` equals Σ log pdf along the plan's reads, where a read the
     plan marks `⊥` (cell never written) is interpreted as the SENTINEL the harness makes `np.empty`
@@ -510,7 +510,7 @@ def oracle_lik(vine, u):
 
 # ----------------------------------------------------------------------------- the tie
 OBS = ['corr:select_copula inputs = plan inputs', 'corr:edge.name/theta = select_copula(plan inputs)',
-       'corr:edge.U = fix01(H(plan inputs))', 'corr:H in [0,1] => U strictly inside (0,1)',
+       'corr:edge.U = fix01(H(plan inputs))', 'corr:U = fix01(non-NaN H) strictly inside (0,1)',
        'corr:get_conditional_uni rows = plan', 'corr:flowOK => plan = needed slots',
        'corr:get_likelihood = sum log pdf along plan reads', 'corr:all reads written => deterministic',
        'corr:goodVine => get_likelihood = specification sum', 'corr:_sample_row = sampling plan',
@@ -532,7 +532,7 @@ def run(ctx, lean):
             bad[name] = detail
 
     rng = ctx.rng('tables')
-    n_tables = 16 * ctx.scale
+    n_tables = 16 if ctx.tier == 'quick' else 76
     for it in range(n_tables):
         d = rng.choice([3, 4, 4, 4, 5, 5, 6])
         mode = rng.choices(MODES, MODE_W)[0]
@@ -605,15 +605,17 @@ def tie_one(ctx, lean, X, vt, t, v, log, eps_hex, note, rng):
         n = len(hl)
         if st_ != 'ok' or not bits_eq(np.array([fixed[:n], fixed[n:]]), e.U):
             note('corr:edge.U = fix01(H(plan inputs))', dict(where, tree=k, edge=i, status=st_))
-        if int(np.sum((hl == 0) | (hl == 1) | (hr == 0) | (hr == 1))):
+        if int(np.sum((hl <= 0) | (hl >= 1) | (hr <= 0) | (hr >= 1))):
             ctx.count('fix01 fired')
+        if int(np.sum((hl < 0) | (hl > 1) | (hr < 0) | (hr > 1))):
+            ctx.count('fix01 fired on a value outside [0,1]')
         U = np.asarray(e.U, dtype=float)
-        h_in = bool(np.all((hl >= 0) & (hl <= 1) & (hr >= 0) & (hr <= 1)))
+        h_in = not bool(np.isnan(hl).any() or np.isnan(hr).any())
         if not bool(np.all((U > 0) & (U < 1))):
             bi = np.argwhere(~((U > 0) & (U < 1)))[0]
             if h_in:       # instance of fix01_range
-                note('corr:H in [0,1] => U strictly inside (0,1)', dict(where, tree=k, edge=i, value=repr(U[tuple(bi)])))
-            ctx.count('pseudo-observation outside (0,1): partial_derivative left [0,1]')
+                note('corr:U = fix01(non-NaN H) strictly inside (0,1)', dict(where, tree=k, edge=i, value=repr(U[tuple(bi)])))
+            ctx.count('pseudo-observation outside (0,1)')
             ctx.fail_input('VineCopula.fit', table_input(X, vt, t),
                            {'tree': k + 1, 'edge': i, 'family': str(e.name), 'theta': float(np.ravel(e.theta)[0]),
                             'U': repr(float(U[tuple(bi)]))},
@@ -868,7 +870,7 @@ def search(ctx, deep):
     rng = ctx.rng('search')
     counts = {'fits': 0, 'checked': 0, 'refused': 0, 'failures': 0, 'wrong-parent-U': 0, 'lik-nondeterministic': 0,
               'lik-wrong-value': 0, 'two-column stats': 0}
-    n_tables = 60 if deep else 6
+    n_tables = 34 if deep else 6
     for it in range(n_tables):
         d = rng.choice([2, 2, 3, 4, 4, 5, 5, 6]) if deep else rng.choice([2, 3, 4, 5, 6])
         mode = rng.choices(MODES, MODE_W)[0]
